@@ -102,7 +102,7 @@ Definition build_linear (dir : direction) (lv : label_vars) (lmaps : label_maps)
 (** ---- facts regenerated from the source on every run (GenLabelFacts.v) ----------------------- *)
 Inductive iso_dir_kind := IsoDocumented | IsoUnknown.       (* rate_suffix[i] for i in labelmap *)
 Inductive short_check_kind := ShortLt0 | ShortUnknown.      (* len(labelmap) - total_substrate_labels < 0 -> ValueError *)
-Inductive repl_kind := ReplDict | ReplUnknown.              (* args renamed through one dict: later key wins *)
+(* [repl_kind] (form of the rate-argument renaming block) is defined in Iso.v *)
 Record label_facts := mkLabelFacts {
   f_iso_dir : iso_dir_kind;
   f_ext_bit : option bool;          (* character appended for external positions: Some true = "1" *)
